@@ -3053,6 +3053,13 @@ func (pid *PID) restartChild(spid *PID, sup *supervisor.Supervisor, delay time.D
 		}
 	}
 
+	// the restart was decided when the child failed; whatever stopped the child
+	// since then (the Stop directive of a failing sibling, an explicit stop during
+	// a long backoff delay) must not be undone by resurrecting it
+	if !spid.IsRunning() && !spid.IsSuspended() {
+		return
+	}
+
 	pid.UnWatch(spid)
 
 	maxRetries := sup.MaxRetries()
